@@ -145,7 +145,9 @@ func (e *Engine) verifyFunc(fn *ssa.Function) (res *FuncResult) {
 			}
 			all := append(append(append([]Val{}, entryParams...), olds...), vals...)
 			for n, cl := range c.clauses("ensures") {
+				x.proving = true
 				t := fr.evalClause(fn, cl, all, rst, rg)
+				x.proving = false
 				p := x.posOf(rpos)
 				if p == "" {
 					p = x.posOf(fn.Pos())
